@@ -85,6 +85,46 @@ def body_counts(case, ctx):
         ctx.event("first-op-advance0")
 
 
+# ------------------------------------------------------------------ long single advances (every digit pattern of m)
+@st.composite
+def long_cases(draw):
+    cls = draw(st.sampled_from(["gibbs", "metropolis", "metropolis", "pca", "ensemble"]))
+    d = 2 if cls == "pca" else (draw(st.integers(1, 2)) if cls != "ensemble" else 1)
+    cfg = {"seed": draw(st.integers(0, 2**31)), "cls": cls, "d": d,
+           "target": {"kind": "gauss", "d": d, "mean": [0.0] * d, "chol": [[1.0 if i == j else 0.0 for j in range(d)] for i in range(d)]},
+           "start_u": [draw(st.floats(-1, 1)) for _ in range(d)], "width_log": [0.0] * d, "T": 1.0, "bounds": None,
+           "display_progress": draw(st.booleans()), "limits": [], "limit_half": [1.0] * d,
+           "ens": {"extra_walkers": 1, "alpha": 2.0}}
+    top = {"gibbs": 60, "metropolis": 120, "pca": 30, "ensemble": 6}[cls]
+    thousands = draw(st.one_of(st.integers(0, 12), st.integers(0, top)))
+    cfg["m"] = thousands * 1000 + draw(st.integers(0, 9)) * 100 + draw(st.one_of(st.sampled_from([0, 0, 50]), st.integers(0, 99)))
+    cfg["pre"] = draw(st.sampled_from([0, 0, 3]))
+    return cfg
+
+
+def body_long(case, ctx):
+    ch, tgt, info = S.build(case, record=False)
+    nw = S.walkers(case)
+    m = case["m"]
+    with warnings.catch_warnings(), np.errstate(all="ignore"):
+        warnings.simplefilter("ignore")
+        if case["pre"]:
+            ch.advance(case["pre"])
+        before = int(ch.chain_length)
+        ch.advance(m)
+    added = int(ch.chain_length) - before
+    if added != m * nw:
+        raise Violation(f"chain_length:{case['cls']}:long", f"advance({m}) added {added} entries, expected {m * nw}")
+    if before + added > 0:
+        s, p = sizes(ch)
+        if s.shape[0] != before + added or p.shape[0] != before + added:
+            raise Violation(f"readout-size:{case['cls']}:long", f"after advance({m}): {s.shape[0]} samples, {p.shape[0]} log-probabilities, chain_length {before + added}")
+    ctx.nontrivial(m >= 1000 and m % 1000 != 0 and m % 100 != 0)
+    ctx.event("cls=" + case["cls"])
+    ctx.event("m>=10000" if m >= 10000 else ("m>=1000" if m >= 1000 else "m<1000"))
+    ctx.event("m%1000>=100" if m % 1000 >= 100 else "m%1000<100")
+
+
 # ------------------------------------------------------------------ pool vs serial
 @st.composite
 def pool_cases(draw):
@@ -250,6 +290,8 @@ def body_timed(case, ctx):
 SUBCHECKS = [
     Sub("counts", lambda t: history_cases(), body_counts, quick=400, thorough=8000, shards_quick=16, shards_thorough=16, weight=5,
         rule="history with m=0, an m<100 and a non-multiple >=100 (ensemble: a 0-iteration advance among >=3 operations)"),
+    Sub("counts-long", lambda t: long_cases(), body_long, quick=160, thorough=4000, shards_quick=8, shards_thorough=16, weight=60,
+        rule="a single advance(m) with m >= 1000 that is a multiple of neither 100 nor 1000"),
     Sub("pool", lambda t: pool_cases(), body_pool, quick=64, thorough=600, shards_quick=8, shards_thorough=16, weight=100,
         rule=">= 2 chains of different classes in the pool"),
     Sub("timed-ensemble", lambda t: timed_cases(classes=("ensemble",)), body_timed, quick=60, thorough=1000, shards_quick=2, shards_thorough=8,
